@@ -162,10 +162,13 @@ func evalCond(n *condNode, log []cbRec, now time.Time, st *condStats) int {
 		return -1
 	}
 	if n.Fn == "latency" {
-		// decided only when everything recorded since the reset is inside every admissible window
+		// latency quantiles come from the rolling latency histogram (6 sub-histograms of 10s, rolled by the first record
+		// that arrives >= 10s after the previous roll): a response recorded less than 50s ago is certainly still in it;
+		// for older ones it depends on when later responses were recorded, which the statement does not pin down:
+		// decided only when everything recorded since the reset is younger than that
 		var vals []int64
 		for _, e := range log {
-			if now.Sub(e.t) > 9*time.Second {
+			if now.Sub(e.t) >= 50*time.Second {
 				st.ambigWindow++
 				return -1
 			}
